@@ -243,3 +243,29 @@ impl ForeignMasterList {
         true
     }
 }
+
+#[cfg(all(statime_verif, feature = "std"))]
+impl ForeignMasterList {
+    pub(crate) fn verif_dump(
+        &self,
+    ) -> std::vec::Vec<(
+        (crate::config::ClockIdentity, u16),
+        std::vec::Vec<(u16, Duration, u16)>,
+    )> {
+        self.foreign_masters
+            .iter()
+            .map(|fm| {
+                (
+                    (
+                        fm.foreign_master_port_identity.clock_identity,
+                        fm.foreign_master_port_identity.port_number,
+                    ),
+                    fm.announce_messages
+                        .iter()
+                        .map(|m| (m.header.sequence_id, m.age, m.message.steps_removed))
+                        .collect(),
+                )
+            })
+            .collect()
+    }
+}
